@@ -55,10 +55,12 @@ impl GraphBlock {
             GraphBlock::BulletList(items) => items.iter().any(|item| {
                 item.iter().filter(|block| block.is_paragraph()).count() > 1
                     || item.iter().skip(1).any(|block| block.needs_blank_line_before())
+                    || has_adjacent_quotes(item)
             }),
             GraphBlock::OrderedList(items) => items.iter().any(|item| {
                 item.iter().filter(|block| block.is_paragraph()).count() > 1
                     || item.iter().skip(1).any(|block| block.needs_blank_line_before())
+                    || has_adjacent_quotes(item)
             }),
             _ => false,
         }
@@ -389,6 +391,13 @@ impl GraphInline {
             _ => None,
         }
     }
+}
+
+// two block quotes that follow each other merge into one unless a blank line separates them
+fn has_adjacent_quotes(item: &Blocks) -> bool {
+    item.windows(2).any(|pair| {
+        matches!(pair[0], GraphBlock::BlockQuote(_)) && matches!(pair[1], GraphBlock::BlockQuote(_))
+    })
 }
 
 fn left_pad_and_prefix(text: &str) -> String {
